@@ -49,7 +49,7 @@ def seeds():
     metas = [(os.path.basename(os.path.dirname(p)), json.load(open(p))) for p in sorted(glob.glob(os.path.join(ROOT, 'seeded/*/meta.json')))]
     missed = [s for s, m in metas if str(m.get('detected_by', '')).upper().startswith('MISSED') or 'MISSED by the first version' in str(m.get('detected_by', ''))]
     thin = [s for s, m in metas if 'no-failing-input-found' in str(m.get('detected_by', '')) or 'proof break only' in str(m.get('detected_by', '')) or 'correspondence break only' in str(m.get('detected_by', ''))]
-    out.insert(-2, 'Six waves of breaker agents produced %d confirmed changes. %d of them were MISSED by the check as it stood when the change arrived'
+    out.insert(-2, 'Seven waves of breaker agents produced %d confirmed changes. %d of them were MISSED by the check as it stood when the change arrived'
                    ' (%s); each miss was closed by strengthening the check for the class of input and re-measured, and every change in the table is now'
                    ' caught with a concrete replay by the registered quick command. %d were at first caught only as a broken proof / correspondence'
                    ' without a failing input (%s) and now have concrete replays as well.\n'
